@@ -189,6 +189,32 @@ pub fn cmd_version20(a: &Args) {
 			}
 		}
 	}
+	// (5) structured strings around the grammar's edges: values above 255, leading zeros, signs, blanks
+	let pieces: Vec<String> = {
+		let mut v: Vec<String> = ["", "0", "00", "000", "05", "005", "0005", "+5", "+0", "++5", "-0", "-1", " 5", "5 ", "0x1", "1e1", "\u{0665}", "255", "256", "257", "299", "300", "511", "512", "999", "1000", "65536", "4294967296", "18446744073709551616", "+255", "+256", "2 5"]
+			.iter()
+			.map(|s| s.to_string())
+			.collect();
+		for n in 0..=300u32 {
+			v.push(n.to_string());
+		}
+		v
+	};
+	for _ in 0..a.num("random-strings", 20000) {
+		let np = *r.pick(&[3usize, 3, 3, 3, 3, 3, 2, 4, 1]);
+		let s: String = (0..np).map(|_| r.pick(&pieces).clone()).collect::<Vec<_>>().join(".");
+		let want = reference_parse(&s);
+		sink.count(crate::util::fnv(s.as_bytes()) ^ 0x57, want.is_some());
+		for (name, got) in [
+			("slippi", guard(|| slippi::Version::from_str(&s)).ok().map(|v| [v.0, v.1, v.2])),
+			("peppi", guard(|| ppi::Version::from_str(&s)).ok().map(|v| [v.0, v.1, v.2])),
+		] {
+			if got != want {
+				let cls = format!("{},{}", name, if want.is_none() { "must_reject" } else { "must_accept" });
+				sink.report(&viol("parse_string", &cls, "mismatch", format!("{:?} parsed as {:?}, expected {:?}", s, got, want)), &|| json!({"s": s}));
+			}
+		}
+	}
 	sink.summary(json!({}));
 }
 
@@ -292,11 +318,18 @@ struct IdsLine {
 	mask: Vec<bool>,
 }
 
-fn frame_with_ids(ids: &[i32]) -> Frame {
+/// A frame structure with the given id column; the other columns are irrelevant to the mask, and are
+/// present (as for a recent version) or absent (as for an old one) depending on `with_start`.
+fn frame_with_ids(ids: &[i32], with_start: bool) -> Frame {
+	use arrow2::array::PrimitiveArray;
 	Frame {
-		id: arrow2::array::PrimitiveArray::<i32>::from_vec(ids.to_vec()),
+		id: PrimitiveArray::<i32>::from_vec(ids.to_vec()),
 		ports: vec![],
-		start: None,
+		start: with_start.then(|| peppi::frame::immutable::Start {
+			random_seed: PrimitiveArray::<u32>::from_vec(vec![0; ids.len()]),
+			scene_frame_counter: None,
+			validity: None,
+		}),
 		end: None,
 		item_offset: None,
 		item: None,
@@ -321,7 +354,7 @@ pub fn cmd_rollbacks(a: &Args) {
 			let repeats = l.mask.iter().any(|b| *b);
 			sink.count(crate::util::fnv(format!("{:?}{}", ids, l.mode).as_bytes()), repeats);
 			sink.sample(|| json!({"ids": ids, "mode": l.mode, "model_mask": l.mask}));
-			let f = frame_with_ids(&ids);
+			let f = frame_with_ids(&ids, ids.len() % 2 == 0);
 			let keep = if l.mode == "first" { Rollbacks::ExceptFirst } else { Rollbacks::ExceptLast };
 			let big = ids.iter().any(|x| *x > 1 << 30);
 			let cls = format!("mode:{},{}", l.mode, if big { "ids_near_i32_max" } else { "small_ids" });
@@ -353,7 +386,7 @@ pub fn cmd_rollbacks(a: &Args) {
 			}
 			ids.push(cur);
 		}
-		let f = frame_with_ids(&ids);
+		let f = frame_with_ids(&ids, i % 2 == 0);
 		for (mode, keep, first) in [("first", Rollbacks::ExceptFirst, true), ("last", Rollbacks::ExceptLast, false)] {
 			sink.count(crate::util::fnv(format!("{:?}{}", &ids[..ids.len().min(64)], mode).as_bytes()) ^ i as u64, true);
 			match guard_plain(|| f.rollbacks(keep)) {
